@@ -159,3 +159,8 @@ Proof.
   - intros Hin. apply in_app_or in Hin as [Hin|Hin]; [contradiction|]. apply (Hd a); [now left|exact Hin].
   - apply IH; [exact H1'|exact H2|]. intros x Hx. apply Hd. now right.
 Qed.
+
+Lemma filter_filter_same {A} (p : A -> bool) l : filter p (filter p l) = filter p l.
+Proof.
+  induction l as [|a l IH]; cbn; [reflexivity|]. destruct (p a) eqn:E; cbn; [rewrite E; now f_equal|exact IH].
+Qed.
